@@ -349,13 +349,15 @@ impl<'a, D: DependencyProvider> Encoder<'a, D> {
             // Allocate the clause for the constraint
             let clause_id = self.state.clauses.alloc(watched_literals, kind);
 
-            // Start watching the clause
-            let watched_literals = self.state.clauses.watched_literals[clause_id.to_usize()]
-                .as_mut()
-                .expect("a forbid clause must always have watched literals");
-            self.state
-                .watches
-                .start_watching(watched_literals, clause_id);
+            // Start watching the clause, or register it as an assertion if it
+            // consists of a single literal (a solvable that forbids itself).
+            match self.state.clauses.watched_literals[clause_id.to_usize()].as_mut() {
+                Some(watched_literals) => self
+                    .state
+                    .watches
+                    .start_watching(watched_literals, clause_id),
+                None => self.state.negative_assertions.push((variable, clause_id)),
+            }
 
             // Mark conflicting clauses
             if conflict {
